@@ -31,7 +31,13 @@ CFG = {
                   "any emulator state the model's replies to sendQueries() are DECRPM 2026->0, 2027->3, 2031->0, CPR 1;1, (OSC 11 iff host "
                   "known), DA1 ?62;4;22c, and C03's model of handleSequence/New() derives exactly sixels + unicodeCore (+osc11) - the renderer "
                   "capabilities are emuCaps; undetected_is_ignored: modes 2026/2031/2048, kitty keyboard CSI u and the OSC 66 probe are "
-                  "no-ops of the emulator model. emu_frames_vocabulary, emu_reference_display (round 1).",
+                  "no-ops of the emulator model. emu_shows_every_frame: the same after EVERY frame k, and the run over the whole history passes "
+                  "through that state. emu_real_startup_related: the emulator model fed the byte stream the real Vaxis writes at start-up "
+                  "(startupAll, compared with the real stream on every run) ends in a start state of the composition theorem (20x6, kernel "
+                  "evaluation). facts_device_attributes / facts_cursor_report / facts_decrpm / facts_queries / facts_wire: the reply literals of "
+                  "csi()/decrqm(), the statements of sendQueries() and the renderer's templates of sequences.go, regenerated from the source on "
+                  "every run (extract/cmd/C12 -> Gen/TermReplies.lean), are what Model/C12Replies and the wire opsOf say, for all arguments. "
+                  "emu_frames_vocabulary, emu_reference_display (round 1).",
     "level_note": "Hypotheses (explicit, with non-vacuity examples): C01's FrameInOkC; every grapheme has width <= 2 and, if its width is "
                   "positive, at least one byte; no ';' in hyperlink parameter strings (necessary: known finding F112b, Witness/F112b, replayed on "
                   "the real code by scenario lp-semicolon); cursor shape value <= 65535; the emulator's parser gives a grapheme the width "
